@@ -177,6 +177,15 @@ NESTS = {
     "tr_render_tr": "{% tablerow i in a %}{% render 'ptr', ys: b %}{% endtablerow %}",
     "rendfor_rendfor": "{% render 'prend' for a, ys: b %}",
     "incfor_incfor": "{% assign ys = b %}{% include 'pinc' for a %}",
+    # the inner construct inside a container that does not repeat: the else branch of a loop over nothing, if, case,
+    # capture, with, a liquid tag (none of them may add to, or take away from, the product of the enclosing lengths)
+    "for_else_for": "{% for i in a %}{% for z in nothing %}{% else %}{% for j in b %}{% probe %}{% endfor %}{% endfor %}{% endfor %}",
+    "else_for_for": "{% for z in nothing %}{% else %}{% for i in a %}{% for j in b %}{% probe %}{% endfor %}{% endfor %}{% endfor %}",
+    "for_else_render_for": "{% for i in a %}{% for z in nothing %}x{% else %}{% render 'pfor', ys: b %}{% endfor %}{% endfor %}",
+    "for_trelse_tr": "{% for i in a %}{% for z in nothing %}{% else %}{% tablerow j in b %}{% probe %}{% endtablerow %}{% endfor %}{% endfor %}",
+    "for_if_case_for": "{% for i in a %}{% if true %}{% case 1 %}{% when 1 %}{% for j in b %}{% probe %}{% endfor %}{% endcase %}{% endif %}{% endfor %}",
+    "for_capture_with_for": "{% for i in a %}{% capture c %}{% with q: 1 %}{% for j in b %}{% probe %}{% endfor %}{% endwith %}{% endcapture %}{{ c }}{% endfor %}",
+    "for_liquid_for": "{% for i in a %}{% liquid for j in b\n probe\n endfor %}{% endfor %}",
     "for_block_for": "{% extends 'base' %}{% block b %}{% for i in a %}{% for j in b %}{% probe %}{% endfor %}{% endfor %}{% endblock %}",
 }
 NESTS3 = {
